@@ -30,16 +30,13 @@ var c08SignedWire = map[string]struct {
 	"(RecvDelta).Marshal": {16, "large TWCC receive delta is a two's-complement int16 on the wire ((*RecvDelta).Unmarshal reads int16(binary.BigEndian.Uint16(..)))"},
 }
 
-// c08Triaged: narrowing sites that the engine cannot decide and that were
-// confirmed by reading the code; matched by instruction key + root. An entry
-// that matches no site makes the check fail (stale table).
+// c08Triaged: wrap-capable uint16 index arithmetic that the engine cannot decide and that was
+// confirmed by reading the code. Keyed by "root function|function containing the operation" (not by
+// instruction ordinals, so that edits elsewhere in these functions do not invalidate the entry); applies
+// only to conversions and arithmetic, never to masks. An entry that matches no site fails the check.
 var c08Triaged = map[string]string{
-	"(StatusVectorChunk).Marshal/Convert#1 @ (StatusVectorChunk).Marshal":                        "uint16(i): numOfBits (lookup in the constant map of numOfBitsOfSymbolSize) is 1, 2 or - for a SymbolSize outside the table, itself reported as finding F15 - 0. For 1 or 2, index = numOfBits*i+2 grows every iteration and setNBitsOfUint16 fails once index+numOfBits > 16, aborting the loop: i <= 14. For 0 the product numOfBits*uint16(i) is 0 whatever uint16(i) is",
-	"(StatusVectorChunk).Marshal/BinOp#6 @ (StatusVectorChunk).Marshal":                          "numOfBits*uint16(i)+2: the product is at most 2*14 (see Convert#1)",
-	"setNBitsOfUint16/BinOp#1 @ (StatusVectorChunk).Marshal > call#5:setNBitsOfUint16": "startIndex+size: startIndex <= 2*14+2 and size <= 2 in this context (see (StatusVectorChunk).Marshal/Convert#1)",
-	"setNBitsOfUint16/BinOp#4 @ (StatusVectorChunk).Marshal > call#5:setNBitsOfUint16": "(1<<size)-1: size is 0, 1 or 2 here, no wrap; (for size = 16 the wrap to 0xFFFF would be the intended full mask)",
-	"setNBitsOfUint16/BinOp#6 @ (StatusVectorChunk).Marshal > call#5:setNBitsOfUint16": "16-size: guarded by startIndex+size <= 16 just above (no wrap of that sum in this context)",
-	"setNBitsOfUint16/BinOp#7 @ (StatusVectorChunk).Marshal > call#5:setNBitsOfUint16": "16-size-startIndex: guarded by startIndex+size <= 16 just above",
+	"(StatusVectorChunk).Marshal|(StatusVectorChunk).Marshal": "symbol index arithmetic uint16(i), numOfBits*uint16(i)+2: numOfBits (lookup in the constant map of numOfBitsOfSymbolSize) is 1, 2 or - for a SymbolSize outside the table, itself reported as finding F15 - 0. For 1 or 2 the index grows every iteration and setNBitsOfUint16 fails once index+numOfBits > 16, aborting the loop: i <= 14, nothing wraps. For 0 the product is 0 whatever uint16(i) is",
+	"(StatusVectorChunk).Marshal|setNBitsOfUint16":            "startIndex+size, (1<<size)-1, 16-size-startIndex inside the helper when called from the symbol loop: startIndex <= 2*14+2 and size <= 2 there (see the entry above), and the subtraction is guarded by startIndex+size <= 16 just above it",
 }
 
 type c08Site struct {
@@ -54,6 +51,8 @@ type c08Site struct {
 	fail    []string
 	notCov  string
 	assumed bool
+	// triageKey: "root|function" for conversions/arithmetic (empty for masks)
+	triageKey string
 }
 
 type c08RootSpec struct {
@@ -66,7 +65,7 @@ func checkC08(c *Ctx) {
 	r := c.Rep
 	p := c.Prog
 	r.Explain = "The numeric abstract interpreter evaluates every Marshal method of the package — the 15 packet types and, as roots of their own with an unconstrained receiver, every helper encoder (ReceptionReport, SDES chunk/item, TWCC chunks and deltas, CCFB blocks, Header) — on all field values and list lengths. Inside a packet-level root the (effect-free) helper encoders are opaque: their result and error are unconstrained, so the packet-level rules only rely on how the error is handled. C08-NARROW: every fixed-width operation that can lose information — a conversion to a narrower integer type, fixed-width arithmetic that can wrap, a low-bit mask x&(2^k-1) — is an obligation per calling context (call-site sensitive call string): the operand must be entailed to fit at the operation, or be a byte extraction whose dropped bits are emitted by a sibling conversion of the same value (x>>8k family), or its pre-operation value (kept in a ghost that is re-assigned at every execution and starts at 0) must be entailed to fit at every return of the root whose error is nil. C08-ERR: in every function of the universe, at every return whose own error result is nil, the error result of every call made by that function is entailed to be nil (no dropped error); error results read as 'nil if the call has not executed yet'. Together: a nil error from a packet's Marshal implies a nil error from every helper it called, and a nil error from any encoder implies that none of its narrowing operations lost information."
-	r.RuleText = "C08-NARROW (per instruction and call string), C08-ERR (per call returning an error), C08-ROOT anchors. Undecided = failure. Frozen tables: signed wire units (c08SignedWire), sites confirmed by reading (c08Triaged, each must match a site)."
+	r.RuleText = "C08-NARROW (per instruction and call string), C08-ERR (per call returning an error), C08-ROOT anchors. Undecided = failure. Frozen tables: signed wire units (c08SignedWire), index arithmetic confirmed by reading (c08Triaged: 2 entries keyed by root and function, each must match an undecided site)."
 	r.Trusted = []string{"go/ssa, VTA call graph", "numeric engine checker/num (exact fixed-width semantics with wrap atoms)", "effects analysis (purity of the opaque helper encoders, determinism of the size functions)", "models of encoding/binary, copy, append, math"}
 	r.Assume = []string{
 		fmt.Sprintf("size domain: the encoding fits one datagram (MarshalSize(), wireSize() <= %d bytes) and the arithmetic of the size computations (functions reachable from a MarshalSize method) does not wrap; a wrapped size makes the copies into the buffer panic, which is not a silent success", c05MaxBytes),
@@ -203,8 +202,8 @@ func checkC08(c *Ctx) {
 		case s.notCov != "":
 			r.NotCov(fmt.Sprintf("%s at %s: %s", s.key, pos, s.notCov))
 		case len(s.fail) > 0:
-			if why, ok := c08Triaged[s.key]; ok {
-				usedTriage[s.key] = true
+			if why, ok := c08Triaged[s.triageKey]; ok && s.triageKey != "" {
+				usedTriage[s.triageKey] = true
 				r.Ok("C08-NARROW", s.key, pos, fmt.Sprintf("%s: confirmed by reading (frozen table): %s", s.desc, why))
 				continue
 			}
@@ -224,11 +223,7 @@ func checkC08(c *Ctx) {
 		}
 		sort.Strings(stale)
 		for _, k := range stale {
-			if s, ok := sites[k]; ok && len(s.fail) == 0 {
-				r.Infof("triage table entry %q is no longer needed (the engine decides the site)", k)
-				continue
-			}
-			r.Fatalf("triage table entry %q matches no narrowing site (stale table)", k)
+			r.Fatalf("triage table entry %q matches no undecided narrowing site (stale table)", k)
 		}
 	}
 	r.Infof("%d narrowing sites lie in the size computations (MarshalSize universe) and are covered by the size-domain assumption", nAssumed)
@@ -392,6 +387,25 @@ func c08Root(c *Ctx, an *effects.Analysis, root c08RootSpec, sizeFns, isMS map[*
 	siteOf := map[string]*c08Site{}
 	for _, rec := range recs {
 		s := &c08Site{key: rec.Key, in: rec.In, desc: describeNarrow(rec.In), pos: posOfInstr(rec.In), seen: rec.Seen, bad: rec.Bad}
+		// masks get a semantic key (function that owns the field, field, width): robust against edits
+		// that shift instruction ordinals, so that known findings keep matching
+		if rec.Mask != 0 {
+			if owner, origin := maskOrigin(rec); origin != "" {
+				w := "variable-width"
+				if rec.Mask > 0 {
+					n := 0
+					for m := rec.Mask; m > 0; m >>= 1 {
+						n++
+					}
+					w = fmt.Sprintf("%d-bits", n)
+				}
+				s.key = fmt.Sprintf("%s/mask-cuts-%s-to-%s", owner, origin, w)
+				s.desc += " (operand: " + origin + ")"
+			}
+		}
+		if rec.Mask == 0 {
+			s.triageKey = core.FuncName(root.fn) + "|" + core.FuncName(rec.In.Parent())
+		}
 		siteOf[rec.Key] = s
 		res.sites = append(res.sites, s)
 		switch {
@@ -588,4 +602,87 @@ func floatSourced(in ssa.Instruction) string {
 		}
 	}
 	return ""
+}
+
+// maskOrigin names the value a mask is applied to: the struct field (or list element) it was loaded
+// from, looking through conversions, shifts and - for helpers - the immediate call site's argument.
+func maskOrigin(rec *num.NarrowRec) (owner, origin string) {
+	b, ok := rec.In.(*ssa.BinOp)
+	if !ok {
+		return "", ""
+	}
+	call := rec.Call
+	var trace func(v ssa.Value, depth int) (string, *ssa.Function)
+	trace = func(v ssa.Value, depth int) (string, *ssa.Function) {
+		if depth > 10 || v == nil {
+			return "", nil
+		}
+		switch x := v.(type) {
+		case *ssa.Const:
+			return "", nil
+		case *ssa.Parameter:
+			if call == nil || x.Parent() != rec.In.Parent() {
+				return "", nil
+			}
+			for i, p := range x.Parent().Params {
+				if p == x {
+					args := call.Common().Args
+					if call.Common().IsInvoke() {
+						if i == 0 {
+							return "", nil
+						}
+						i--
+					}
+					if i < len(args) {
+						c := call
+						call = nil
+						defer func() { call = c }()
+						return trace(args[i], depth+1)
+					}
+				}
+			}
+		case *ssa.UnOp:
+			if x.Op == token.MUL {
+				switch a := x.X.(type) {
+				case *ssa.FieldAddr:
+					if st, ok := a.X.Type().Underlying().(*types.Pointer).Elem().Underlying().(*types.Struct); ok {
+						return st.Field(a.Field).Name(), x.Parent()
+					}
+				case *ssa.IndexAddr:
+					n, f := trace(a.X, depth+1)
+					if n != "" {
+						return n + "[]", f
+					}
+				}
+				return "", nil
+			}
+			return trace(x.X, depth+1)
+		case *ssa.Field:
+			if st, ok := x.X.Type().Underlying().(*types.Struct); ok {
+				return st.Field(x.Field).Name(), x.Parent()
+			}
+		case *ssa.Convert:
+			return trace(x.X, depth+1)
+		case *ssa.ChangeType:
+			return trace(x.X, depth+1)
+		case *ssa.BinOp:
+			if n, f := trace(x.X, depth+1); n != "" {
+				return n, f
+			}
+			return trace(x.Y, depth+1)
+		case *ssa.Phi:
+			for _, e := range x.Edges {
+				if n, f := trace(e, depth+1); n != "" {
+					return n, f
+				}
+			}
+		}
+		return "", nil
+	}
+	for _, o := range []ssa.Value{b.X, b.Y} {
+		if n, f := trace(o, 0); n != "" && f != nil {
+			return core.FuncName(f), n
+		}
+	}
+	return "", ""
 }
